@@ -8,6 +8,7 @@ import (
 	"errors"
 	"fmt"
 	"sort"
+	"strings"
 	"sync"
 	"testing"
 	"testing/synctest"
@@ -72,6 +73,8 @@ type Case struct {
 	Decs      []Dec       `json:"decs"`
 	Faults    []Fault     `json:"faults,omitempty"`
 	Shutdown  bool        `json:"shutdown,omitempty"`   // shutdown moves are enabled
+	Path      string      `json:"path,omitempty"`       // key-space prefix of every provider ("" = /locks/)
+	NameStyle int         `json:"name_style,omitempty"` // how lock name i is spelled: 0 "n<i>", 1 one letter, 2 "k" + 3*i times "z"
 	HonourCtx bool        `json:"honour_ctx,omitempty"` // the storage refuses calls whose context is done (as a networked backend does)
 }
 
@@ -167,7 +170,24 @@ func (e *eng) setViol(sig, format string, a ...any) {
 	}
 }
 
-func (e *eng) key(name int) string { return fmt.Sprintf("%sn%d", lockPath, name) }
+func (c *Case) path() string {
+	if c.Path == "" {
+		return lockPath
+	}
+	return c.Path
+}
+
+func (c *Case) lockName(i int) string {
+	switch c.NameStyle {
+	case 1:
+		return string(rune('a' + i))
+	case 2:
+		return "k" + strings.Repeat("z", 3*i)
+	}
+	return fmt.Sprintf("n%d", i)
+}
+
+func (e *eng) key(name int) string { return e.c.path() + e.c.lockName(name) }
 
 func (e *eng) nameOf(w *wk) int { return e.c.Lockers[w.cfg.Locker].Name }
 func (e *eng) provOf(w *wk) int { return e.c.Lockers[w.cfg.Locker].Provider }
@@ -528,10 +548,10 @@ func (e *eng) run() *vstat.Violation {
 	e.holders = make([]int, c.Names)
 	e.down = make([]bool, c.Providers)
 	for p := 0; p < c.Providers; p++ {
-		e.provs = append(e.provs, dist.NewKvsLockProvider(e.g, lockPath))
+		e.provs = append(e.provs, dist.NewKvsLockProvider(e.g, c.path()))
 	}
 	for _, lc := range c.Lockers {
-		e.lockers = append(e.lockers, e.provs[lc.Provider].NewLocker(fmt.Sprintf("n%d", lc.Name)))
+		e.lockers = append(e.lockers, e.provs[lc.Provider].NewLocker(c.lockName(lc.Name)))
 	}
 	e.g.Observe = func(w int, op, key string, err error) {
 		e.mu.Lock()
@@ -605,7 +625,7 @@ func (e *eng) run() *vstat.Violation {
 // residue: once every holder has unlocked, nothing is left behind and everybody can acquire again.
 func (e *eng) residue() *vstat.Violation {
 	ctx := context.Background()
-	it, err := e.inner.ListKeys(ctx, lockPath+"*")
+	it, err := e.inner.ListKeys(ctx, "*")
 	if err == nil {
 		var left []string
 		for it.HasNext() {
